@@ -1,13 +1,12 @@
 import MJ.Model.UndefVm
 /-!
-# Helper lemmas for C12: every mode-dependent check of the VM model is monotone in the mode
+# Helper lemmas for C12: questions to the undefined behaviour are monotone, hence every `Comp` is
 -/
 namespace MJ.Undef
 
 /-- a mode-indexed check only adds errors with strictness -/
 abbrev ChkMono (f : Mode → Except Err Unit) : Prop :=
   ∀ m m', m' ≤ m → f m = .ok () → f m' = .ok ()
-
 
 /-- all table-interpreted helpers only add errors with strictness (finite check over the rows
     regenerated from utils.rs / vm/mod.rs / environment.rs) -/
@@ -21,111 +20,162 @@ theorem helperMono :
   case refine_7 => intro k m m' b; cases m <;> cases m' <;> cases k <;> cases b <;> decide
   all_goals (intro k m m'; cases m <;> cases m' <;> cases k <;> decide)
 
+/-- an answer under `m` is the same answer under every weaker `m'` -/
+theorem HQ.run_mono (q : HQ) (m m' : Mode) (b : Bool) (h : m' ≤ m) : q.run m = .ok b → q.run m' = .ok b := by
+  cases q with
+  | handleUndefined p => cases m <;> cases m' <;> cases p <;> cases b <;> revert h <;> decide
+  | isTrue k => cases m <;> cases m' <;> cases k <;> cases b <;> revert h <;> decide
+  | assertIterable k => cases m <;> cases m' <;> cases k <;> cases b <;> revert h <;> decide
+  | tryIter k => cases m <;> cases m' <;> cases k <;> cases b <;> revert h <;> decide
+  | assertNotUndef k => cases m <;> cases m' <;> cases k <;> cases b <;> revert h <;> decide
+  | emit k => cases m <;> cases m' <;> cases k <;> cases b <;> revert h <;> decide
+  | envFormat k => cases m <;> cases m' <;> cases k <;> cases b <;> revert h <;> decide
+  | slice k => cases m <;> cases m' <;> cases k <;> cases b <;> revert h <;> decide
 
-theorem seqChks_two_mono {f g : Mode → Except Err Unit} (hf : ChkMono f) (hg : ChkMono g) :
-    ChkMono (fun m => seqChks [f m, g m]) := by
-  intro m m' h
-  have hf' := hf m m' h
-  have hg' := hg m m' h
-  simp only [seqChks]
-  cases h1 : f m with
-  | error e => simp [seqChks]
-  | ok u =>
-    cases u
-    rw [hf' h1]
-    cases h2 : g m with
-    | error e => simp [seqChks]
-    | ok u => cases u; rw [hg' h2]; simp [seqChks]
+/-- two modes that both answer give the same answer (the payload does not depend on the mode) -/
+theorem HQ.run_agree (q : HQ) (m m' : Mode) (b b' : Bool) : q.run m = .ok b → q.run m' = .ok b' → b = b' := by
+  cases q with
+  | handleUndefined p => cases m <;> cases m' <;> cases p <;> cases b <;> cases b' <;> decide
+  | isTrue k => cases m <;> cases m' <;> cases k <;> cases b <;> cases b' <;> decide
+  | assertIterable k => cases m <;> cases m' <;> cases k <;> cases b <;> cases b' <;> decide
+  | tryIter k => cases m <;> cases m' <;> cases k <;> cases b <;> cases b' <;> decide
+  | assertNotUndef k => cases m <;> cases m' <;> cases k <;> cases b <;> cases b' <;> decide
+  | emit k => cases m <;> cases m' <;> cases k <;> cases b <;> cases b' <;> decide
+  | envFormat k => cases m <;> cases m' <;> cases k <;> cases b <;> cases b' <;> decide
+  | slice k => cases m <;> cases m' <;> cases k <;> cases b <;> cases b' <;> decide
 
-theorem const_mono (r : Except Err Unit) : ChkMono (fun _ => r) := fun _ _ _ h => h
+theorem HQ.run_cases (q : HQ) (m : Mode) :
+    q.run m = .error .undefinedError ∨ q.run m = .ok true ∨ q.run m = .ok false := by
+  cases q with
+  | handleUndefined p => cases m <;> cases p <;> decide
+  | isTrue k => cases m <;> cases k <;> decide
+  | assertIterable k => cases m <;> cases k <;> decide
+  | tryIter k => cases m <;> cases k <;> decide
+  | assertNotUndef k => cases m <;> cases k <;> decide
+  | emit k => cases m <;> cases k <;> decide
+  | envFormat k => cases m <;> cases k <;> decide
+  | slice k => cases m <;> cases k <;> decide
 
-theorem cmpGuard_mono (op : CmpOp) (a b : V) : ChkMono (cmpGuard · op a b) := by
-  obtain ⟨_, _, hI, _, hN, _⟩ := helperMono
-  unfold cmpGuard
-  cases op <;> first
-    | exact seqChks_two_mono (hN _) (hN _)
-    | exact seqChks_two_mono (hI _) (hN _)
+/-- the only error a question can answer with is `UndefinedError` -/
+theorem HQ.run_err (q : HQ) (m : Mode) (e : Err) : q.run m = .error e → e = .undefinedError := by
+  intro h
+  rcases HQ.run_cases q m with h' | h' | h' <;> rw [h'] at h <;> cases h
+  rfl
 
-theorem mapInvalid_mono {f : Mode → Except Err Unit} (hf : ChkMono f) : ChkMono (fun m => mapInvalid (f m)) := by
-  intro m m' h hm
-  show mapInvalid (f m') = .ok ()
-  have hm : mapInvalid (f m) = .ok () := hm
-  cases h1 : f m with
-  | error e => rw [h1] at hm; simp [mapInvalid] at hm
-  | ok u => cases u; rw [hf m m' h h1]; rfl
+namespace Comp
 
-theorem filterGuard_mono (name : String) (args : List V) : ChkMono (filterGuard · name args) := by
-  obtain ⟨hH, hT, hI, hTI, hN, _⟩ := helperMono
-  intro m m' h
-  unfold filterGuard
-  split <;> first
-    | exact hT _ m m' h
-    | exact hN _ m m' h
-    | exact hTI _ m m' h
-    | exact mapInvalid_mono (hTI _) m m' h
-    | exact fun x => x
-    | (split <;> first | exact hN _ m m' h | exact fun x => x | exact hH _ m m' h)
+theorem run_bind {α β : Type} (c : Comp α) (f : α → Comp β) (m : Mode) :
+    (c.bind f).run m = match c.run m with
+      | .error e => .error e
+      | .ok a => (f a).run m := by
+  induction c with
+  | pure a => rfl
+  | fail e => rfl
+  | ask q g k ih =>
+    simp only [Comp.bind, Comp.run]
+    cases hq : q.run m with
+    | error e => rfl
+    | ok b => simp [ih b]
 
-theorem testGuard_mono (name : String) (args : List V) : ChkMono (testGuard · name args) := by
-  obtain ⟨_, _, hI, _⟩ := helperMono
-  intro m m' h
-  unfold testGuard
-  split
-  · exact hI _ m m' h
-  · exact fun x => x
+theorem run_ofExcept {α : Type} (x : Except Err α) (m : Mode) : (Comp.ofExcept x).run m = x := by
+  cases x <;> rfl
 
-/-- every instruction consults the mode only through monotone checks -/
-theorem modeGuard_mono (i : Instr) (s : St) : ChkMono (modeGuard · i s) := by
-  obtain ⟨hH, hT, hI, hTI, hN, hE, hF, hS⟩ := helperMono
-  intro m m' h
-  unfold modeGuard
-  split
-  · split
-    · exact fun x => x
-    · exact hH _ m m' h
-  · split
-    · exact hH _ m m' h
-    · exact fun x => x
-  · exact hS _ m m' h
-  · exact seqChks_two_mono (hI _) (hN _) m m' h
-  · exact cmpGuard_mono _ _ _ m m' h
-  · exact cmpGuard_mono _ _ _ m m' h
-  · exact hT _ m m' h
-  · exact seqChks_two_mono (hN _) (hN _) m m' h
-  · exact hT _ m m' h
-  · exact hT _ m m' h
-  · exact hT _ m m' h
-  · exact hTI _ m m' h
-  · split
-    · exact filterGuard_mono _ _ m m' h
-    · exact fun x => x
-  · split
-    · exact testGuard_mono _ _ m m' h
-    · exact fun x => x
-  · exact fun x => x
+/-- **every computation that consults the mode only by asking is monotone**: a success under `m`
+    is the same success under every weaker `m'` -/
+theorem run_mono {α : Type} (c : Comp α) (m m' : Mode) (h : m' ≤ m) (a : α) :
+    c.run m = .ok a → c.run m' = .ok a := by
+  induction c with
+  | pure x => exact fun hx => hx
+  | fail e => exact fun hx => hx
+  | ask q g k ih =>
+    intro hx
+    simp only [Comp.run] at hx ⊢
+    cases hq : q.run m with
+    | error e => simp [hq] at hx
+    | ok b =>
+      rw [HQ.run_mono q m m' b h hq]
+      simp only [hq] at hx
+      exact ih b hx
 
-/-- `Emit` (default and custom formatter) only adds errors with strictness, and a success is the
-    same success: in particular the formatter is reached under `m'` iff it was under `m` -/
-theorem stepEmit_mono (m m' : Mode) (s s' : St) (h : m' ≤ m) : stepEmit m s = .ok s' → stepEmit m' s = .ok s' := by
-  obtain ⟨_, _, _, _, _, hE, hF, _⟩ := helperMono
-  unfold stepEmit
-  split
-  · rename_i v r _
-    split
-    · intro hs
-      cases hg : emitChk m v.kind with
-      | error e => simp [hg] at hs
-      | ok u =>
-        cases u
-        have hg' : emitChk m' v.kind = .ok () := hE _ m m' h hg
-        rw [hg']
-        simpa [hg] using hs
-    · intro hs
-      cases hg : envFormat m v.kind with
-      | error e => simp [hg] at hs
-      | ok b =>
-        rw [hF _ m m' b h hg]
-        simpa [hg] using hs
-  · exact fun x => x
+/-- two modes under which the computation succeeds give the same result (whatever their order) -/
+theorem run_agree {α : Type} (c : Comp α) (m m' : Mode) (a a' : α) :
+    c.run m = .ok a → c.run m' = .ok a' → a = a' := by
+  induction c with
+  | pure x => intro h h'; cases h; cases h'; rfl
+  | fail e => intro h; cases h
+  | ask q g k ih =>
+    intro hx hx'
+    simp only [Comp.run] at hx hx'
+    cases hq : q.run m with
+    | error e => simp [hq] at hx
+    | ok b =>
+      cases hq' : q.run m' with
+      | error e => simp [hq'] at hx'
+      | ok b' =>
+        have hb := HQ.run_agree q m m' b b' hq hq'
+        subst hb
+        simp only [hq] at hx
+        simp only [hq'] at hx'
+        exact ih b hx hx'
+
+/-- a mode under which the computation fails although it succeeds under another one fails with
+    the error of one of its questions: an `UndefinedError` raised by a helper, as the question
+    reports it -/
+theorem run_err_of_ok {α : Type} (c : Comp α) (m m' : Mode) (e : Err) (a : α) :
+    c.run m = .error e → c.run m' = .ok a → c.AskErr e := by
+  induction c with
+  | pure x => intro h; cases h
+  | fail e' => intro _ h'; cases h'
+  | ask q g k ih =>
+    intro hx hx'
+    simp only [Comp.run] at hx hx'
+    cases hq : q.run m with
+    | error e' =>
+      simp only [hq] at hx
+      cases hx
+      have := HQ.run_err q m e' hq
+      subst this
+      exact Or.inl rfl
+    | ok b =>
+      cases hq' : q.run m' with
+      | error e' => simp [hq'] at hx'
+      | ok b' =>
+        have hb := HQ.run_agree q m m' b b' hq hq'
+        subst hb
+        simp only [hq] at hx
+        simp only [hq'] at hx'
+        exact Or.inr ⟨b, ih b hx hx'⟩
+
+/-- when no question rewrites its error, that error is `UndefinedError` -/
+theorem askErr_of_plain {α : Type} (c : Comp α) (hp : c.PlainAsks) (e : Err) : c.AskErr e → e = .undefinedError := by
+  induction c with
+  | pure x => intro h; cases h
+  | fail e' => intro h; cases h
+  | ask q g k ih =>
+    intro h
+    obtain ⟨hg, hk⟩ := hp
+    rcases h with h | ⟨b, h⟩
+    · subst hg; exact h
+    · exact ih b (hk b) h
+
+/-- a computation that asks nothing does not depend on the mode -/
+theorem run_of_isPure {α : Type} (c : Comp α) (h : c.isPure = true) (m m' : Mode) : c.run m = c.run m' := by
+  cases c with
+  | pure a => rfl
+  | fail e => rfl
+  | ask q g k => simp [Comp.isPure] at h
+
+theorem run_mapErr_ok {α : Type} (c : Comp α) (f : Err → Err) (m : Mode) (a : α) :
+    (c.mapErr f).run m = .ok a ↔ c.run m = .ok a := by
+  induction c with
+  | pure x => exact Iff.rfl
+  | fail e => simp [Comp.mapErr, Comp.run]
+  | ask q g k ih =>
+    simp only [Comp.mapErr, Comp.run]
+    cases hq : q.run m with
+    | error e => simp
+    | ok b => simpa using ih b
+
+end Comp
 
 end MJ.Undef
